@@ -1,0 +1,52 @@
+//go:build verif
+
+package shell_operator
+
+import (
+	"context"
+
+	"github.com/deckhouse/deckhouse/pkg/log"
+
+	"github.com/flant/shell-operator/pkg/hook/types"
+	"github.com/flant/shell-operator/pkg/task"
+	"github.com/flant/shell-operator/pkg/task/queue"
+)
+
+// VerifC11Setup assembles an operator the way Init/assembleShellOperator do, as far as schedules
+// are concerned: event managers, hook managers, hooks loaded from hooksDir (each hook is executed
+// with --config), schedule/kubernetes event handlers installed, main queue bootstrapped.
+// No kube client, no http servers, nothing is started.
+func VerifC11Setup(ctx context.Context, hooksDir, tempDir string, logger *log.Logger) (*ShellOperator, error) {
+	op := NewShellOperator(ctx, WithLogger(logger))
+	op.SetupEventManagers()
+	op.setupHookManagers(hooksDir, tempDir)
+	if err := op.initHookManager(); err != nil {
+		return nil, err
+	}
+	op.bootstrapMainQueue(op.TaskQueues)
+	return op, nil
+}
+
+// VerifC11CreateHookQueues creates the queues named by schedule bindings exactly as
+// initAndStartHookQueues does, but does not start their workers (the tasks stay observable).
+func (op *ShellOperator) VerifC11CreateHookQueues() {
+	schHooks, _ := op.HookManager.GetHooksInOrder(types.Schedule)
+	for _, hookName := range schHooks {
+		h := op.HookManager.GetHook(hookName)
+		for _, hookBinding := range h.Config.Schedules {
+			if op.TaskQueues.GetByName(hookBinding.Queue) == nil {
+				op.TaskQueues.NewNamedQueue(hookBinding.Queue, op.taskHandler)
+			}
+		}
+	}
+}
+
+// VerifC11ScheduleCb calls the schedule event callback installed by initHookManager.
+func (op *ShellOperator) VerifC11ScheduleCb(crontab string) []task.Task {
+	return op.ManagerEventsHandler.scheduleCb(crontab)
+}
+
+// VerifC11TaskHandler runs the operator's task handler on one task (EnableScheduleBindings).
+func (op *ShellOperator) VerifC11TaskHandler(t task.Task) queue.TaskResult {
+	return op.taskHandler(t)
+}
